@@ -130,11 +130,16 @@ class RateLimiter:
         while True:
             await asyncio.sleep(300)  # Clean every 5 minutes
 
+            # Only forget buckets that are idle AND would be full again by now:
+            # a forgotten address starts over with a full bucket, so dropping a
+            # partly drained one would hand it allowance it has not earned
             now = time.monotonic()
             to_remove = [
                 ip
                 for ip, bucket in self.buckets.items()
                 if now - bucket.last_update > 600  # 10 minutes idle
+                and bucket.tokens + (now - bucket.last_update) * bucket.refill_rate
+                >= bucket.capacity
             ]
 
             for ip in to_remove:
